@@ -599,6 +599,52 @@ def gen_trap(rng, long_rate=0.02):
     return {'k': 'flat', 'prog': [['L', 10], ['RES', 'S']], 'direct': None}
 
 
+def accept_session(rng, prog, cmds):
+    if not F.valid_layout(prog):
+        return False
+    kinds, out, steps = F.ref_session(prog, cmds)
+    if 'unmodelled' in kinds or 'long' in kinds:
+        return False
+    return steps <= F.SHORT
+
+
+def gen_trap_session(rng):
+    """a handler program and several commands typed one after the other WITHOUT clearing in between: what a
+    stop leaves behind (handler line, error registers, stacks, variables) is what the next command starts
+    with.  Handlers that end the program themselves (fault, ON ERROR GOTO 0, no RESUME, END) are frequent."""
+    for _ in range(80):
+        prog, lines, h_lines, sub_lines = gen_trap_prog(rng)
+        if rng.random() < 0.6:
+            # make the first handler stop the program on its first visit(s)
+            h = h_lines[0]
+            i = next(k for k, x in enumerate(prog) if x == ['L', h])
+            stopper = rng.choice([['ERR', rng.choice(ERRCODES)], ['ERR', rng.choice(ERRCODES)], ['OEG', 0],
+                                  ['=', 0, ['+', 32767, 1]], ['END'], ['G', 400]])
+            guard = [['IF', ['=', V(6), 0], None], ['=', 6, 1], stopper,
+                     ['L', h + 5]] if rng.random() < 0.7 else [stopper, ['L', h + 5]]
+            prog = prog[:i + 1] + guard + prog[i + 1:]
+        cmds = [None if rng.random() < 0.75 else gen_direct(rng, lines, h_lines, sub_lines)]
+        for _ in range(rng.choice([1, 1, 2, 3])):
+            r = rng.random()
+            if r < 0.35:
+                cmds.append([['G', rng.choice([10, 10, 20, rng.choice(lines)])]])
+            elif r < 0.55:
+                cmds.append([fault(rng, lines)] + ([['P', rng.choice([7, 'ERR', 'ERL'])]] if rng.random() < 0.6 else []))
+            elif r < 0.65:
+                cmds.append([['P', 'ERR'], ['P', 'ERL']])
+            elif r < 0.75:
+                cmds.append([['RES', rng.choice(['N', 'S', rng.choice(lines)])]])
+            elif r < 0.85 and sub_lines:
+                cmds.append([['GS', rng.choice(sub_lines)], ['P', 8]])
+            elif r < 0.93:
+                cmds.append(gen_direct(rng, lines, h_lines, sub_lines))
+            else:
+                cmds.append(None)
+        if accept_session(rng, prog, cmds):
+            return {'k': 'flat', 'prog': prog, 'cmds': cmds}
+    return {'k': 'flat', 'prog': [['L', 10], ['RES', 'S']], 'cmds': [None, [['P', 'ERR']]]}
+
+
 # ---------------------------------------------------------------------------------------------------------
 # FOR with a single-precision counter
 
